@@ -159,16 +159,22 @@ func ruleTreeThresholds(c *Ctx, r *R) {
 			if cal == nil || (fname(cal) != "rotateLeft" && fname(cal) != "rotateRight") {
 				return
 			}
-			donor := call.Call.Args[2] // rotateLeft(x, right): donor = right
+			as := argsAs(&call.Call)
+			if len(as) < 3 || as[1] == nil || as[2] == nil {
+				r.undecided("tree.btree.steal|donor-guard:"+fname(cal), call.Pos(), "cannot match the arguments of "+fname(cal))
+				return
+			}
+			donor := as[2] // rotateLeft(x, right): donor = right
 			if fname(cal) == "rotateRight" {
-				donor = call.Call.Args[1] // rotateRight(left, x): donor = left
+				donor = as[1] // rotateRight(left, x): donor = left
 			}
 			good := false
+			dn := valueProv(donor, provEnv{}).String() + ".n"
 			for _, g := range guardsOf(b) {
-				if cf, ok := g.asCmp(); ok && cf.op == token.GTR && path(cf.x) == path(donor)+".n" && strings.HasSuffix(path(cf.y), "7") {
+				if cf, ok := g.asCmp(); ok && cf.op == token.GTR && valueProv(cf.x, cf.env()).String() == dn && strings.HasSuffix(path(cf.y), "7") {
 					good = true
 				}
-				if cf, ok := g.asCmp(); ok && cf.op == token.GTR && path(cf.x) == path(donor)+".n" {
+				if cf, ok := g.asCmp(); ok && cf.op == token.GTR && valueProv(cf.x, cf.env()).String() == dn {
 					if v, ok := evalConst(cf.y, 0); ok {
 						mn, _ := constOf(nil2(c), treeRel, "minKVs")
 						good = v == mn
@@ -194,14 +200,15 @@ func ruleTreeThresholds(c *Ctx, r *R) {
 				return
 			}
 			cal := staticCallee(&call.Call)
-			if cal == nil || (fname(cal) != "steal" && fname(cal) != "merge") || len(call.Call.Args) < 2 {
+			if cal == nil || (fname(cal) != "steal" && fname(cal) != "merge") || rootFn(cal).Pkg != fn.Pkg {
 				return
 			}
-			if cal.Signature.Recv() == nil || !isNamedType(cal.Signature.Recv().Type(), treeRel, "btree") {
+			as := argsAs(&call.Call)
+			if len(as) < 2 || as[1] == nil {
 				return
 			}
 			k++
-			x := call.Call.Args[1]
+			x := as[1]
 			good := underfullAt(c, x, b, mn, 0, map[ssa.Value]bool{})
 			r.ok(good, "tree.btree."+name+"|repair-trigger:"+fname(cal)+"#"+itoa(k), call.Pos(), fname(cal)+"("+path(x)+") must be reached only for a node known to have n < minKVs (established by a guard here, at the place the node value was produced, or at every call site)")
 		})
@@ -217,7 +224,11 @@ func ruleTreeThresholds(c *Ctx, r *R) {
 				return
 			}
 			for _, g := range append(guardsOf(b), guardsOfSelf(b)...) {
-				if cf, ok := g.asCmp(); ok && cf.op == token.LEQ && path(cf.x) == path(call.Call.Args[1])+".n" {
+				as := argsAs(&call.Call)
+				if len(as) < 2 || as[1] == nil {
+					continue
+				}
+				if cf, ok := g.asCmp(); ok && cf.op == token.LEQ && valueProv(cf.x, cf.env()).String() == valueProv(as[1], provEnv{}).String()+".n" {
 					if v, okc := evalConst(cf.y, 0); okc && v == mn {
 						good = true
 					}
@@ -245,6 +256,7 @@ func underfullAt(c *Ctx, v ssa.Value, b *ssa.BasicBlock, mn int64, depth int, se
 		return true
 	}
 	vp := valueProv(v, provEnv{}).String()
+	var curEnv provEnv
 	sameNode := func(x ssa.Value) bool {
 		// x is <node>.n
 		ld, ok := resolveVal(x).(*ssa.UnOp)
@@ -255,7 +267,7 @@ func underfullAt(c *Ctx, v ssa.Value, b *ssa.BasicBlock, mn int64, depth int, se
 		if !ok || fieldName(fa.X.Type(), fa.Field) != "n" {
 			return false
 		}
-		return fa.X == v || resolveVal(fa.X) == resolveVal(v) || valueProv(fa.X, provEnv{}).String() == vp
+		return fa.X == v || resolveVal(fa.X) == resolveVal(v) || valueProv(fa.X, curEnv).String() == vp
 	}
 	var gs []guard
 	gs = append(gs, guardsOf(b)...)
@@ -268,6 +280,7 @@ func underfullAt(c *Ctx, v ssa.Value, b *ssa.BasicBlock, mn int64, depth int, se
 			continue
 		}
 		x, y, op := cf.x, cf.y, cf.op
+		curEnv = cf.env() // (x.underfilled(): the comparison lives in the helper's frame)
 		if sameNode(y) {
 			x, y, op = y, x, flip(op)
 		}
